@@ -697,7 +697,11 @@ pub enum Call {
     Chain { producer: String, args: Args, pic: String, display: bool },
     TryNew { pic: String },
     Parse { ty: Ty, text: String, pic: String, via_formatter: bool },
-    Format { ty: Ty, raw: i64, pic: String, display: bool },
+    /// `display`: through `write!(sink, <flags>, value.format(pic)?)`; `flags` selects
+    /// the format-string flags (width, fill incl. multi-byte fills, alignment, precision)
+    Format { ty: Ty, raw: i64, pic: String, display: bool, flags: u8 },
+    /// `write!(sink, "{:?}", value)` of a public type
+    Debug { ty: Ty, raw: i64, pretty: bool },
     Now { ty: Ty },
     FromTime { ty: Ty, raw: i64 },
     Func { name: String, args: Args },
@@ -715,6 +719,7 @@ impl Call {
                     format!("{}::parse", ty.name())
                 }
             }
+            Call::Debug { ty, .. } => format!("Debug<{}>", ty.name()),
             Call::Format { ty, display, .. } => {
                 if *display {
                     format!("write!({}::format)", ty.name())
@@ -753,9 +758,10 @@ impl Call {
                     format!("{}::parse({}, {})", ty.name(), clip(text), clip(pic))
                 }
             }
-            Call::Format { ty, raw, pic, display } => {
+            Call::Debug { ty, raw, pretty } => format!("write!(sink, \"{}\", {}[raw {}])", if *pretty { "{:#?}" } else { "{:?}" }, ty.name(), raw),
+            Call::Format { ty, raw, pic, display, flags } => {
                 if *display {
-                    format!("write!(sink, \"{{}}\", {}[raw {}].format({})?)", ty.name(), raw, clip(pic))
+                    format!("write!(sink, \"{}\", {}[raw {}].format({})?)", DISPLAY_FLAGS[*flags as usize % DISPLAY_FLAGS.len()], ty.name(), raw, clip(pic))
                 } else {
                     format!("Formatter::try_new({})?.format({}[raw {}], sink)", clip(pic), ty.name(), raw)
                 }
@@ -775,9 +781,10 @@ impl Call {
             Call::Parse { ty, text, pic, via_formatter } => {
                 json!({"call": "parse", "type": ty.name(), "text": text, "picture": pic, "via_formatter": via_formatter})
             }
-            Call::Format { ty, raw, pic, display } => {
-                json!({"call": "format", "type": ty.name(), "raw": raw, "picture": pic, "display": display})
+            Call::Format { ty, raw, pic, display, flags } => {
+                json!({"call": "format", "type": ty.name(), "raw": raw, "picture": pic, "display": display, "flags": flags, "format_string": DISPLAY_FLAGS[*flags as usize % DISPLAY_FLAGS.len()]})
             }
+            Call::Debug { ty, raw, pretty } => json!({"call": "debug", "type": ty.name(), "raw": raw, "pretty": pretty}),
             Call::Now { ty } => json!({"call": "now", "type": ty.name()}),
             Call::FromTime { ty, raw } => json!({"call": "from_time", "type": ty.name(), "raw": raw}),
             Call::Func { name, args } => json!({"call": "func", "name": name, "args": args.to_json()}),
@@ -806,13 +813,42 @@ impl Call {
                 raw: v["raw"].as_i64().ok_or("raw")?,
                 pic: s("picture")?,
                 display: v["display"].as_bool().unwrap_or(false),
+                flags: v["flags"].as_u64().unwrap_or(0) as u8,
             },
+            "debug" => Call::Debug { ty: ty()?, raw: v["raw"].as_i64().ok_or("raw")?, pretty: v["pretty"].as_bool().unwrap_or(false) },
             "now" => Call::Now { ty: ty()? },
             "from_time" => Call::FromTime { ty: ty()?, raw: v["raw"].as_i64().ok_or("raw")? },
             "func" => Call::Func { name: s("name")?, args: Args::from_json(&v["args"])? },
             o => return Err(format!("unknown call {o}")),
         })
     }
+}
+
+/// The format strings used with the lazy Display value (index = `flags`).
+pub const DISPLAY_FLAGS: [&str; 14] = [
+    "{}", "{:>40}", "{:<5}", "{:^33}", "{:*^30}", "{:.3}", "{:010}", "{:>1}", "{:·>21}", "{:─^40}", "{:\u{a0}<37}",
+    "{:…>33}", "{:😀^35.7}", "{:é<64}",
+];
+
+macro_rules! write_flags {
+    ($sink:expr, $flags:expr, $d:expr) => {
+        match $flags % 14 {
+            0 => write!($sink, "{}", $d),
+            1 => write!($sink, "{:>40}", $d),
+            2 => write!($sink, "{:<5}", $d),
+            3 => write!($sink, "{:^33}", $d),
+            4 => write!($sink, "{:*^30}", $d),
+            5 => write!($sink, "{:.3}", $d),
+            6 => write!($sink, "{:010}", $d),
+            7 => write!($sink, "{:>1}", $d),
+            8 => write!($sink, "{:·>21}", $d),
+            9 => write!($sink, "{:─^40}", $d),
+            10 => write!($sink, "{:\u{a0}<37}", $d),
+            11 => write!($sink, "{:…>33}", $d),
+            12 => write!($sink, "{:😀^35.7}", $d),
+            _ => write!($sink, "{:é<64}", $d),
+        }
+    };
 }
 
 fn err_name(e: &sqldatetime::Error) -> &'static str {
@@ -902,13 +938,37 @@ pub fn execute(call: &Call, tables: &Tables, vals: Option<&Vals>, sink: &mut Fau
                 Ty::Oracle => p!(OracleDate),
             }
         }
-        Call::Format { ty, raw, pic, display } => {
+        Call::Debug { ty, raw, pretty } => {
+            macro_rules! dbg_write {
+                ($v:expr) => {{
+                    match $v {
+                        Ok(v) => {
+                            let r = if *pretty { write!(sink, "{:#?}", v) } else { write!(sink, "{:?}", v) };
+                            match r {
+                                Ok(()) => "ok",
+                                Err(_) => "fmt::Error",
+                            }
+                        }
+                        Err(_) => "not-a-value",
+                    }
+                }};
+            }
+            match ty {
+                Ty::Date => dbg_write!(Date::try_from_days(*raw as i32)),
+                Ty::Timestamp => dbg_write!(Timestamp::try_from_usecs(*raw)),
+                Ty::Time => dbg_write!(Time::try_from_usecs(*raw)),
+                Ty::IntervalYM => dbg_write!(IntervalYM::try_from_months(*raw as i32)),
+                Ty::IntervalDT => dbg_write!(IntervalDT::try_from_usecs(*raw)),
+                Ty::Oracle => dbg_write!(OracleDate::try_from_usecs(*raw)),
+            }
+        }
+        Call::Format { ty, raw, pic, display, flags } => {
             macro_rules! f {
                 ($val:expr) => {{
                     let val = $val;
                     if *display {
                         match val.format(pic) {
-                            Ok(d) => match write!(sink, "{}", d) {
+                            Ok(d) => match write_flags!(sink, *flags, d) {
                                 Ok(()) => "ok",
                                 Err(_) => "fmt::Error",
                             },
@@ -1149,7 +1209,91 @@ fn rendered(ty: Ty, raw: i64, pic: &str) -> Option<String> {
     }
 }
 
+/// A text built field by field along the picture (own, simple tokenizer),
+/// each numeric field filled with a boundary number of its kind: year 1900 with
+/// day of year 366, month 13, day 31 in a 30-day month, hour 24, 9-digit numbers,
+/// signs, names ... Hostile but plausible.
+pub fn structured_text(rng: &mut Rng, pic: &str) -> String {
+    let up = pic.to_ascii_uppercase();
+    let b = up.as_bytes();
+    let mut out = String::new();
+    let mut i = 0;
+    let num = |rng: &mut Rng, pool: &[&str]| -> String {
+        let mut s = String::new();
+        match rng.below(12) {
+            0 => s.push('-'),
+            1 => s.push('+'),
+            _ => {}
+        }
+        if rng.chance(1, 10) {
+            s.push_str("0000000");
+        }
+        let chosen: &str = pool[rng.usize_below(pool.len())];
+        s.push_str(chosen);
+        s
+    };
+    while i < b.len() {
+        let rest = &up[i..];
+        let (len, piece): (usize, String) = if rest.starts_with("YYYY") {
+            (4, num(rng, &["1", "4", "100", "400", "1582", "1700", "1900", "2000", "2024", "2100", "9996", "9999", "0", "10000", "0001"]))
+        } else if rest.starts_with("YYY") {
+            (3, num(rng, &["0", "1", "99", "100", "900", "999", "1000"]))
+        } else if rest.starts_with("YY") {
+            (2, num(rng, &["0", "00", "1", "24", "99", "100", "1900", "2100"]))
+        } else if rest.starts_with('Y') {
+            (1, num(rng, &["0", "4", "9", "10"]))
+        } else if rest.starts_with("MONTH") {
+            (5, (*rng.pick(&["February", "FEBRUARY", "feb", "December", "may", "Sept", "Marchx", "J"])).to_string())
+        } else if rest.starts_with("MON") {
+            (3, (*rng.pick(&["Feb", "DEC", "jan", "February", "Ma", "Jun", "xyz"])).to_string())
+        } else if rest.starts_with("MM") {
+            (2, num(rng, &["0", "1", "2", "02", "11", "12", "13", "99", "Feb"]))
+        } else if rest.starts_with("MI") {
+            (2, num(rng, &["0", "00", "59", "60", "99"]))
+        } else if rest.starts_with("DDD") {
+            (3, num(rng, &["0", "1", "59", "60", "61", "365", "366", "367", "999", "060", "001"]))
+        } else if rest.starts_with("DD") {
+            (2, num(rng, &["0", "1", "28", "29", "30", "31", "32", "99", "999999999", "100000000", "99999999"]))
+        } else if rest.starts_with("DAY") {
+            (3, (*rng.pick(&["Monday", "SUNDAY", "saturday", "Sun", "Thursda", "x"])).to_string())
+        } else if rest.starts_with("DY") {
+            (2, (*rng.pick(&["Mon", "SUN", "sat", "Sunday", "Th", "x"])).to_string())
+        } else if rest.starts_with('D') {
+            (1, (*rng.pick(&["0", "1", "7", "8", "9", "-", "/", "+", " "])).to_string())
+        } else if rest.starts_with("HH24") {
+            (4, num(rng, &["0", "00", "12", "23", "24", "99"]))
+        } else if rest.starts_with("HH12") {
+            (4, num(rng, &["0", "1", "12", "13", "00"]))
+        } else if rest.starts_with("HH") {
+            (2, num(rng, &["0", "1", "12", "13", "00"]))
+        } else if rest.starts_with("SS") {
+            (2, num(rng, &["0", "00", "59", "60", "99"]))
+        } else if rest.starts_with("FF") {
+            let l = if rest.len() > 2 && rest.as_bytes()[2].is_ascii_digit() { 3 } else { 2 };
+            (l, (*rng.pick(&["0", "5", "999999", "9999995", "999999999", "9999999999", "000001", "-1", ""])).to_string())
+        } else if rest.starts_with("A.M.") || rest.starts_with("P.M.") {
+            (4, (*rng.pick(&["A.M.", "p.m.", "AM", "a.m", "P.M"])).to_string())
+        } else if rest.starts_with("AM") || rest.starts_with("PM") {
+            (2, (*rng.pick(&["AM", "pm", "A.M.", "a", "Pm"])).to_string())
+        } else if rest.starts_with("WW") {
+            (2, (*rng.pick(&["1", "53", "54"])).to_string())
+        } else {
+            let ch = pic[i..].chars().next().unwrap_or(' ');
+            (ch.len_utf8(), if rng.chance(1, 12) { String::new() } else { ch.to_string() })
+        };
+        out.push_str(&piece);
+        if rng.chance(1, 15) {
+            out.push(' ');
+        }
+        i += len.max(1);
+    }
+    out
+}
+
 pub fn gen_text(rng: &mut Rng, ty: Ty, pic: &str) -> String {
+    if rng.chance(1, 4) && pic.len() < 300 && pic.is_ascii() {
+        return structured_text(rng, pic);
+    }
     match rng.below(20) {
         0..=9 => {
             let raw = draw_value(rng, ty);
@@ -1203,7 +1347,12 @@ pub fn gen_call(rng: &mut Rng, tables: &Tables) -> Call {
         }
         45..=74 => {
             let ty = *rng.pick(&ALL_TYPES);
-            Call::Format { ty, raw: draw_value(rng, ty), pic: gen_picture(rng), display: rng.chance(1, 3) }
+            if rng.chance(1, 20) {
+                return Call::Debug { ty, raw: draw_value(rng, ty), pretty: rng.bool() };
+            }
+            let display = rng.chance(1, 3);
+            let flags = if display && rng.chance(1, 2) { rng.below(DISPLAY_FLAGS.len() as u64) as u8 } else { 0 };
+            Call::Format { ty, raw: draw_value(rng, ty), pic: gen_picture(rng), display, flags }
         }
         75..=77 => Call::Now { ty: *rng.pick(&[Ty::Date, Ty::Timestamp, Ty::Oracle]) },
         81..=88 => {
